@@ -40,7 +40,7 @@ impl Wire {
             t.insert(Sym::Synced, frame(DownlinkNotification::Synced));
             t.insert(Sym::Unlinked, frame(DownlinkNotification::Unlinked));
         }
-        for k in [1, 2] {
+        for k in crate::model::KEYS.into_iter().chain([1, 2]) {
             for x in [1, 2] {
                 map.insert(Sym::Upd(k, x), frame(DownlinkNotification::Event { body: map_body(MapMessage::Update { key: k, value: x }) }));
             }
